@@ -7,7 +7,7 @@ CONSTANTS
   Fams = {"faults", "args", "pipe"}
   MaxFiles = 3
   FaultKinds <- AllKinds
-  NoMsgs <- OnlyFalse
+  NoMsgs <- Both
   ThreadSet = {1, 4}
   MaxPipeFiles = 3
 INVARIANTS Sane Partition Function Monotonic Locality Contracts Emitted
